@@ -129,6 +129,10 @@ type Evaluator struct {
 	// result of one map lookup: "whenever the destination is occupied by an
 	// entry of type T").
 	Bind map[ssa.Value]AV
+	// NoKill keeps the cell's field values even when the code stores into
+	// those fields: for queries about tests of the *initial* configuration in
+	// functions whose stores to a field come after the tests of that field.
+	NoKill bool
 }
 
 func newEvaluator(c *Ctx) *Evaluator {
@@ -214,6 +218,9 @@ func (f *Frame) run() {
 				b := fn.Blocks[bi]
 				// stores that overwrite a fixed field of a subject object
 				for _, in := range b.Instrs {
+					if f.ev.NoKill {
+						break
+					}
 					if st, ok := in.(*ssa.Store); ok {
 						if fa, ok := f.Eval(st.Addr).(avFieldAddr); ok {
 							if cur, fixed := fa.o.Fields[fa.path]; fixed && !fa.o.killed[fa.path] {
@@ -725,7 +732,6 @@ func (f *Frame) LiveInstrs() []LiveInstr {
 	walk(f)
 	return out
 }
-
 
 // MustReach decides whether, under the cell, every live path from the frame's
 // entry to a return that may report success executes an instruction satisfying
